@@ -44,6 +44,10 @@ inductive Instr where
   | clear
   | setpen (bg : Option Int) (b : Option Bool)
   | xlate (d r : Int)
+  /-- `tickit_window_expose` from inside the handler: of window `id` (whole window or a literal rectangle), or of the
+      handler's own window with a rectangle relative to the handed one -/
+  | exposeWin (id : Nat) (r : Option Rect)
+  | exposeOwn (a b c d : Int)
 deriving Repr, Inhabited
 
 def field? (s : String) : Option (Option Int) :=
@@ -77,8 +81,14 @@ def parseInstr (tok : String) : Option Instr :=
     | some [a, b, c, d] =>
       if k = "E" then some (.erase false a b c d) else if k = "e" then some (.erase true a b c d)
       else if k = "S" then some (.skip false a b c d) else if k = "s" then some (.skip true a b c d)
-      else if k = "L" then some (.clip a b c d) else none
+      else if k = "L" then some (.clip a b c d)
+      else if k = "z" then some (.exposeOwn a b c d) else none
     | _ => none
+  | ["Z", i] => (i.toNat?).map fun i => .exposeWin i none
+  | ["Z", i, a, b, c, d] =>
+    match i.toNat?, ints? [a, b, c, d] with
+    | some i, some [a, b, c, d] => some (.exposeWin i (some ⟨a, b, c, d⟩))
+    | _, _ => none
   | [k, a, b, c] =>
     if k = "T" ∨ k = "t" then
       match ints? [a, b], hexBytes? c with
@@ -154,6 +164,8 @@ def instrOps (id : Nat) (glyph : Int → Int → Nat) (rect : Rect) : Instr → 
   | .clear => [.clear]
   | .setpen bg b => [.setPen { fg := some ((id : Int) + 1), bg := bg, b := b }]
   | .xlate d r => [.translate d r]
+  | .exposeWin _ _ => []
+  | .exposeOwn _ _ _ _ => []
 
 /-! ### driver state -/
 
@@ -162,7 +174,7 @@ structure DSt where
   st : Option St := none
   dead : Option String := none          -- the model reached undefined behaviour
   scr : Tab := {}
-  mode : Nat := 0                        -- 0 accept, 1 partial, 2 refuse
+  mode : Nat := 0                        -- 0 accept, 1 partial, 2 refuse, 3 the library's mock terminal (its rule = partial)
   behs : Array (Option (List Instr)) := #[]
   shifts : Array (List (Rect × Int × Int)) := #[]
   closed : Array Bool := #[]
@@ -176,6 +188,16 @@ def mkBeh (behs : Array (Option (List Instr))) (shifts : Array (List (Rect × In
     match (behs.getD id none) with
     | none => paintProg glyph rect
     | some prog => prog.flatMap (instrOps id glyph rect)
+
+/-- The exposes a window's handler makes (targets that do not exist or are closed are skipped, as in the harness). -/
+def mkBehExp (behs : Array (Option (List Instr))) (closed : Array Bool) : Id → Rect → List (Id × Option Rect) :=
+  fun id rect =>
+    match (behs.getD id none) with
+    | none => []
+    | some prog => prog.filterMap fun
+      | .exposeWin i r => if closed.getD i true then none else some (i, r)
+      | .exposeOwn a b c d => some (id, some ⟨rect.top + a, rect.left + b, rect.lines + c, rect.cols + d⟩)
+      | _ => none
 
 def oracleOf (mode : Nat) : Oracle := fun tl tc rect d r =>
   if mode = 0 then true
@@ -382,7 +404,8 @@ def parsePen (tok : String) : Option Pen :=
     | _, _, _ => some {}
   | _ => some {}
 
-def modeOf (s : String) : Nat := if s.startsWith "a" then 0 else if s.startsWith "p" then 1 else 2
+def modeOf (s : String) : Nat :=
+  if s.startsWith "a" then 0 else if s.startsWith "p" then 1 else if s.startsWith "m" then 3 else 2
 
 /-- Re-tabulate the screen and store the state. -/
 def commit (d : DSt) (st : St) : DSt :=
@@ -434,18 +457,18 @@ def runOp (d : DSt) (ts : List String) : DSt × String :=
         finishOk { d with behs := d.behs.setIfInBounds id p } st 0 none false
       | none => (d, "bad-op")
     | ["flush"] =>
-      match flush (mkBeh d.behs d.shifts) st with
+      match flushX (mkBeh d.behs d.shifts) (mkBehExp d.behs d.closed) st with
       | .ub w => fail d w
       | .ok (st, shots) => finishOk d st 0 (some (shots.map Shot.ev)) true
     | ["resize", lines, cols] =>
       match ints? [lines, cols] with
       | some [l, c] =>
-        if l < 1 ∨ c < 1 ∨ l > 64 ∨ c > 120 then (d, "bad-op") else
+        if l < 1 ∨ c < 1 ∨ l > 64 ∨ c > 120 ∨ d.mode = 3 then (d, "bad-op") else
         match termResize st l c with
         | .ub w => fail d w
         | .ok st => finishOk d st 0 none true
       | _ => (d, "bad-op")
-    | ["scrollmode", m] => finishOk { d with mode := modeOf m } st 0 none false
+    | ["scrollmode", m] => if d.mode = 3 then (d, "bad-op") else finishOk { d with mode := modeOf m } st 0 none false
     | op :: idS :: rest =>
       match idS.toNat? with
       | none => (d, "bad-op")
